@@ -115,6 +115,8 @@ def apply(eng, rule: Rule, fr, topology, enter, leave, root):
 
         out = []
         for m in rule.modifies:
+            if isinstance(m, tuple) and m[0] == "local":
+                continue
             hint = None
             if isinstance(m, tuple):  # ("expr", element kinds): a still-concrete list / dict is promoted to a symbolic one of that element type
                 m, hint = m
@@ -128,6 +130,9 @@ def apply(eng, rule: Rule, fr, topology, enter, leave, root):
         seen = set()
         for t in targets():
             havoc_value(eng, t, seen)
+        for m in rule.modifies:
+            if isinstance(m, tuple) and m[0] == "local":  # ("local", name, kind): a scalar local of the carrier that a callback rebinds (nonlocal)
+                fr.vars[m[1]] = fresh(m[2], m[1])
 
     emptyset = z3.K(I, z3.BoolVal(False))
     # ---- init
